@@ -48,3 +48,38 @@ Theorem C19_partial_eval_bool : forall x b fpre kx fpost preds body ipre ipost c
        (run (pe_proc x (BoolC b) (Proc (fpre ++ (x, kx) :: fpost) preds body)) (mkInput (ipre ++ ipost) cfg)).
 Proof. intros x b. exact (partial_eval_correct x (BoolC b) (VBool b) (fun _ => eq_refl) (fun _ => eq_refl)). Qed.
 Print Assumptions C19_partial_eval_bool.
+
+(** add_assertion (the new predicate is appended to the assertions): on every input the narrowed procedure
+    still accepts, it behaves exactly like the original *)
+From Core Require Import Rules.
+Theorem C19_add_assertion : forall formals preds e body inp,
+  match run (Proc formals (preds ++ [e]) body) inp with
+  | Done bufs cfg => run (Proc formals preds body) inp = Done bufs cfg
+  | Fails err => run (Proc formals preds body) inp = Fails err
+  | Invalid _ => True
+  end.
+Proof. exact rule_add_assertion. Qed.
+Print Assumptions C19_add_assertion.
+
+(** transpose: swapping the two dimensions of a 2-D argument — its extents in the signature and the two indices
+    of every access, window expression, stride expression and stride assertion on it — gives a procedure
+    that, run on the transposed VIEW of the same cells (extents and strides swapped), leaves exactly the same
+    memory and configuration as the original (and fails exactly when the original fails).  [tr_proc] is the
+    Gallina model of DoRearrangeDim [1;0] on an argument; harness/props/C19.py compares it term by term with the
+    real Procedure.transpose.  Hypotheses mirror what the implementation refuses: the argument is never passed
+    whole to a callee, no window keeps both of its dimensions, and it is not re-declared in the body. *)
+From Core Require Import Transpose TransposeSound.
+
+Theorem C19_transpose : forall a fpre s0 s1 win fpost preds body ipre off d0 d1 cells ipost cfg,
+  length ipre = length fpre ->
+  (forall y k, In (y, k) fpre -> y <> a /\ ok_kind a k = true) ->
+  (forall y k, In (y, k) fpost -> y <> a /\ ok_kind a k = true) ->
+  ok_e a s0 = true -> ok_e a s1 = true ->
+  ok_es a preds = true -> forallb (ok_s a) body = true -> forallb (nobind a) body = true ->
+  TransposeSound.osim
+    (run (Proc (fpre ++ (a, KTensor [s0; s1] win) :: fpost) preds body)
+         (mkInput (ipre ++ InBuf off [d0; d1] cells :: ipost) cfg))
+    (run (tr_proc a (Proc (fpre ++ (a, KTensor [s0; s1] win) :: fpost) preds body))
+         (mkInput (ipre ++ InBuf off [d1; d0] cells :: ipost) cfg)).
+Proof. exact transpose_correct. Qed.
+Print Assumptions C19_transpose.
